@@ -1099,6 +1099,22 @@ func (c14) Run(ctx *Ctx, ci interface{}) (o Outcome) {
 		}
 		o.Add("mutation_lists_checked", int64(n))
 	}
+	// whatever the residues are (lower case, '*', '.', X included): a sequence compared with itself has no mutation
+	if c.Ref >= 0 && c.Ref < n {
+		if parts := strings.Split(s0.disc["NumMutationsComparedToReferenceSequence"], "|"); len(parts) == n {
+			o.Add("reference_against_itself_checked", 1)
+			if parts[c.Ref] != "0 <nil>" && strings.HasSuffix(parts[c.Ref], "<nil>") {
+				o.Fail("definition:NumMutationsComparedToReferenceSequence", "the reference row %d compared with itself: %s mutations reported\n%s", c.Ref, parts[c.Ref], desc())
+				return
+			}
+		}
+		if parts := strings.Split(s0.disc["ListMutationsComparedToReferenceSequence"], "|"); len(parts) == n {
+			if parts[c.Ref] != "<nil>" && strings.HasSuffix(parts[c.Ref], "<nil>") {
+				o.Fail("definition:ListMutationsComparedToReferenceSequence", "the reference row %d compared with itself: mutations %s listed\n%s", c.Ref, parts[c.Ref], desc())
+				return
+			}
+		}
+	}
 	for _, kind := range []string{"all-short", "all-long", "one-row-short"} {
 		if got, ok := s0.disc["profile-not-covering("+kind+")"]; ok {
 			o.Add("profiles_not_covering_the_alignment", 1)
